@@ -1,9 +1,13 @@
 (* C20 - rendering never panics and terminates.  Statements only.
    Termination: [run] and [compile] are structurally recursive Coq functions over finite values.
    No panic: well-formed values (Model/Wfe.v: no nil interface where a method is called, a plain
-   grouping element has a set) render normally under every option combination and supplied map. *)
-From Coq Require Import String List.
-From QRB Require Import Base.Bytes Model.W Model.Values Model.Compile Model.WModes Model.Wfe Model.CompileFacts.
+   grouping element has a set) render normally under every option combination and supplied map.
+   Reachability: every statement value obtained from an entry point (Select, InsertInto, Update, DeleteFrom) by
+   any number of the modelled builder methods (Model/Api.v, compared call by call with the implementation) is
+   well-formed, provided the expressions handed in are well-formed themselves - so no sequence of those calls
+   can produce a value that makes the renderer panic (C20_reachable_no_panic). *)
+From Coq Require Import String List ZArith.
+From QRB Require Import Base.Bytes Model.W Model.Values Model.Compile Model.WModes Model.Wfe Model.CompileFacts Model.Api Model.ApiFacts.
 Import ListNotations.
 
 Section C20.
@@ -22,6 +26,19 @@ Section C20.
   Theorem C20_outcome_static :
     forall o (w : W V) s, (exists s', run validI validT o w s = Some s') <-> panics V w = false.
   Proof. exact (run_total V validI validT). Qed.
+
+  (* one modelled builder call keeps a statement value well-formed *)
+  Theorem C20_builder_call_preserves_wf :
+    forall rtype meth (recv : exp V) args r,
+      wfe recv = true -> forallb (aarg_wfe V) args = true -> query_ok V (mkey rtype meth) args ->
+      api rtype meth recv args = Some r -> wfe r = true.
+  Proof. exact (api_wfe V). Qed.
+
+  (* ... hence every statement reachable through the modelled API renders without a panic, under every
+     option combination and supplied map, whatever the length of the call chain *)
+  Theorem C20_reachable_no_panic :
+    forall o sup (e : exp V), reachable V e -> to_sql validI validT o sup (compile_top e) <> RPanic.
+  Proof. intros o sup e H. apply C20_no_panic. exact (reachable_wfe V e H). Qed.
 End C20.
 
 (* a nil expression handed to the library is a panic site: the hypothesis is necessary *)
@@ -29,5 +46,24 @@ Example C20_nil_panics :
   to_sql (fun _ => true) (fun _ => true) (Build_opts true false) [] (compile_top (EExists (@ENil nat))) = RPanic.
 Proof. vm_compute. reflexivity. Qed.
 
+(* non-vacuity: Select(a).From(t).As("x").Where(a = 1).Limit(1) is reachable *)
+Local Open Scope string_scope.
+Example C20_reachable_example :
+  let a := EIdent (@ENil nat) "a" in
+  let chain := [("SelectSelectBuilder", "From", [AExp (EIdent ENil "t")]); ("FromSelectBuilder", "As", [AStr "x"]);
+                ("FromSelectBuilder", "Where", [AExp (EOp a "=" (EInt 1%Z) false)]); ("SelectBuilder", "Limit", [AExp (EInt 1%Z)]);
+                ("SelectBuilder", "Union", []); ("CombinationBuilder", "Select", [AExps [a]])] in
+  exists e, run_chain nat (entry "Select" [AExps [a]]) chain = Some e /\ reachable nat e /\
+    e = ESelect [] [mkComb (p_set_limit nat (p_set_where nat (p_set_from nat (p_set_list nat (empty_parts nat) [(a, "")])
+                         [mkFromItem false false (EIdent ENil "t") "x" []]) [EOp a "=" (EInt 1%Z) false]) (EInt 1%Z)) "UNION" false]
+                (p_set_list nat (empty_parts nat) [(a, "")]).
+Proof.
+  intros a chain. eexists. split; [vm_compute; reflexivity|]. split; [|reflexivity].
+  apply (chain_reachable nat "Select" [AExps [a]] chain); vm_compute; reflexivity.
+Qed.
+
 Print Assumptions C20_no_panic.
+Print Assumptions C20_builder_call_preserves_wf.
+Print Assumptions C20_reachable_no_panic.
+Print Assumptions C20_reachable_example.
 Print Assumptions C20_outcome_static.
